@@ -437,6 +437,13 @@ func solveAll(obls []*Obligation, cfg *runConfig) []*OblResult {
 				os.WriteFile("/tmp/govc-dump-"+sanitize(o.Name)+".smt2", []byte(text), 0o644)
 			}
 			to := cfg.timeout
+			if o.Gen != nil && o.Gen.con != nil && cfg.tier != "thorough" {
+				// per-contract solver budget (functions with long paths and many invariants)
+				var n int
+				if _, err := fmt.Sscanf(o.Gen.con.Opts["timeout"], "%d", &n); err == nil && n > to && n <= 90 {
+					to = n
+				}
+			}
 			if o.Cover && to > 5 {
 				to = 5
 			}
